@@ -119,6 +119,16 @@ def compare(schema, text, resources, main=MAIN, expect_reject=False):
     inline = outcome(loadcheck.real_load(schema, text, url=main))
     _N["n"] += 1
     real_res, real_main, root = loadcheck.materialise(resources, main, reuse=_N["n"] % 2 == 0)
+    if _N["n"] % 5 == 0:
+        # the name the application uses is a symbolic link; the file is stored in another directory
+        import os
+        from urllib.request import url2pathname
+        link = url2pathname(real_main[len("file://"):])
+        store = os.path.join(root, "zcv-store")
+        os.makedirs(store, exist_ok=True)
+        os.rename(link, os.path.join(store, "stored-main.conf"))
+        os.symlink(os.path.join(store, "stored-main.conf"), link)
+        real_main = link            # and it is named by path, not by URL
     try:
         split = outcome(loadcheck.real_load_url(schema, real_main))
     finally:
